@@ -1,6 +1,9 @@
 package main
 
 import (
+	"strings"
+	"fmt"
+	"os"
 	"go/token"
 	"go/types"
 	"sort"
@@ -124,6 +127,9 @@ func (p *Program) addressTaken() map[*ssa.Function]bool {
 					if c != nil && c.Value == v {
 						continue
 					}
+					if mc, isMC := i.(*ssa.MakeClosure); isMC && mc.Fn == ssa.Value(v) {
+						continue // the function literal itself; what happens to the closure value is examined below
+					}
 					taken[v] = true
 				case *ssa.MakeClosure:
 					if c != nil && c.Value == v {
@@ -166,12 +172,15 @@ func (p *Program) lockInfo() *LockInfo {
 			if e.Kind == EdgeInvoke || e.Kind == EdgeEscape || e.Kind == EdgeMux {
 				exported = true // reachable through an interface: callers unknown
 			}
-			if _, isDefer := e.Site.(*ssa.Defer); isDefer {
-				exported = true // runs at function exit; entry lockset not tracked
+			if _, isDefer := e.Site.(*ssa.Defer); isDefer && !(e.Kind == EdgeStatic || e.Kind == EdgeClosure) {
+				exported = true // runs at function exit through an unknown callee
 			}
 			if _, isGo := e.Site.(*ssa.Go); isGo {
 				exported = true
 			}
+		}
+		if os.Getenv("RESTCHECK_DEBUG_LOCKS") != "" && strings.Contains(fn.Name(), "$") {
+			fmt.Fprintf(os.Stderr, "elig %s exported=%v taken=%v hasCaller=%v in=%d\n", fn.String(), exported, taken[fn], hasCaller, len(cg.In[fn]))
 		}
 		if !exported && !taken[fn] && hasCaller && fn.Synthetic == "" {
 			li.eligible[fn] = true
@@ -198,6 +207,12 @@ func (p *Program) lockInfo() *LockInfo {
 					continue
 				}
 				ls := li.at[e.Site]
+				if d, isDefer := e.Site.(*ssa.Defer); isDefer {
+					ls = li.deferredContext(d)
+					if os.Getenv("RESTCHECK_DEBUG_LOCKS") != "" {
+						fmt.Fprintf(os.Stderr, "deferred %s from %s: at=%s ctx=%s\n", e.Callee.Name(), fn.Name(), lockSetString(li.at[d]), lockSetString(ls))
+					}
+				}
 				if cur, ok := newEntry[e.Callee]; ok {
 					newEntry[e.Callee] = meet(cur, ls)
 				} else {
@@ -306,6 +321,36 @@ func (li *LockInfo) analyse(fn *ssa.Function, entry lockSet) {
 }
 
 func (li *LockInfo) heldAt(i ssa.Instruction) lockSet { return li.at[i] }
+
+// deferredContext: the locks held while the call deferred at d runs. Deferred calls run last-in first-out at exit: a
+// lock held at the defer statement is still held then if its release is itself deferred, by a defer statement that
+// executes before d on every path (so it runs after d's call), and no plain release of it can execute after d.
+func (li *LockInfo) deferredContext(d *ssa.Defer) lockSet {
+	out := lockSet{}
+	fn := d.Parent()
+	for l, mode := range li.at[d] {
+		deferredEarlier, plainLater := false, false
+		eachInstr(fn, func(i ssa.Instruction) {
+			op, ok := lockOpOf(i)
+			if !ok || op.Acquire || op.Lock != l {
+				return
+			}
+			if _, isDefer := i.(*ssa.Defer); isDefer {
+				if instrDominates(i, d) {
+					deferredEarlier = true
+				}
+				return
+			}
+			if canReach(d, i) {
+				plainLater = true
+			}
+		})
+		if deferredEarlier && !plainLater {
+			out[l] = mode
+		}
+	}
+	return out
+}
 
 func lockSetString(s lockSet) string {
 	var ks []string
